@@ -207,6 +207,91 @@ def tcp_counts(n, streaming=False, watch=False, failing=False):
     return out
 
 
+def tcp_conn_counts(n, mode):
+    """n connections one after the other on ONE TcpIo, each of a few messages, each ending the way `mode` says: "close"
+    (end of data), "reset" (the read raises ConnectionResetError), "raise" (a command handler raises); how many Task
+    objects are still alive afterwards?"""
+    from tickit.adapters.io.tcp_io import TcpIo
+    from tickit.adapters.tcp import CommandAdapter
+    from tickit.adapters.specifications import RegexCommand
+
+    class A(CommandAdapter):
+        @RegexCommand(rb"P", False)
+        async def p(self):
+            return b"ok"
+
+        @RegexCommand(rb"X", False)
+        async def x(self):
+            raise RuntimeError("handler fails")
+
+    class Reader:
+        def __init__(self):
+            self.k = 0
+
+        async def read(self, size):
+            await asyncio.sleep(0)
+            self.k += 1
+            if self.k <= 2:
+                return b"P"
+            if mode == "reset":
+                raise ConnectionResetError("connection reset by peer")
+            if mode == "raise" and self.k == 3:
+                return b"X"
+            return b""
+
+    class Writer:
+        def write(self, d):
+            pass
+
+        def is_closing(self):
+            return False
+
+        def close(self):
+            pass
+
+        async def wait_closed(self):
+            return
+
+        async def drain(self):
+            return
+
+        def get_extra_info(self, k):
+            return None
+
+    out = {}
+
+    async def main():
+        a = A()
+
+        async def ri():
+            pass
+        io = TcpIo("h", 1)
+        handle = io._generate_handle_function(a.on_connect, a.handle_message, ri, a.byte_format)
+        for _ in range(n):
+            t = asyncio.create_task(handle(Reader(), Writer()))
+            try:
+                await asyncio.wait_for(asyncio.shield(t), timeout=5)
+            except Exception:  # noqa  -- a connection that ends with an exception ends all the same
+                pass
+            for _ in range(3):
+                await asyncio.sleep(0)
+            del t
+        gc.collect()
+        out["task_objects"] = sum(1 for o in gc.get_objects() if isinstance(o, asyncio.Task))
+        out["live_tasks"] = len([t for t in asyncio.all_tasks() if not t.done()])
+        out["io"] = io          # (the io object lives as long as the server does)
+    loop = asyncio.new_event_loop()
+    loop.set_exception_handler(lambda lp, ctx: None)
+    try:
+        asyncio.set_event_loop(loop)
+        loop.run_until_complete(main())
+    finally:
+        asyncio.set_event_loop(None)
+        loop.close()
+    out.pop("io", None)
+    return out
+
+
 def render(cfg, counts):
     return T(slevel.r_config(cfg), L(T(Zr(c["ticks"]), Zr(c["tasks"]), Zr(c["timers"]), Zr(c["wakeups"])) for c in counts))
 
@@ -231,6 +316,10 @@ def main(tier, seed):
     # a time-out an hour ahead that every interrupt of the device re-arms (its pending wakeup is replaced again and again
     # before it is ever due) next to a device with near periodic callbacks
     configs.append(({1: dict(order=[(3, "dev"), (4, "dev")], conns=[])}, {3: (3, 3_600_000_000_000, 1), 4: (3, 30_000_000, 1)}))
+    # an inner device that asks to be re-evaluated at once on every other update (a callback at the time of the update itself)
+    configs.append(({1: dict(order=[(3, "dev"), (4, 2), (7, "dev")], conns=[(3, 1, 4, 1), (4, 1, 7, 1)]),
+                     2: dict(order=[(5, "dev"), (6, "dev")], conns=[(EXT, 1, 5, 1), (5, 1, 6, 1), (6, 1, EXP, 1)])},
+                    {3: (5, 20_000_000, 1), 5: (5, 30_000_000, 5), 6: (5, 50_000_000, 5), 7: (5, 30_000_000, 0)}))
     # purely interrupt-driven: no component ever asks for a callback, the master idles between interrupts
     configs.append(({1: dict(order=[(3, "dev"), (4, "dev")], conns=[(3, 1, 4, 1)])}, {3: (3, 20_000_000, 0), 4: (3, 30_000_000, 0)}))
     for _ in range({"quick": 2, "thorough": 20}[tier]):
@@ -265,6 +354,14 @@ def main(tier, seed):
     tcp_s = [tcp_counts(n, streaming=True) for n in (N, 2 * N, 4 * N)]
     tcp_w = [tcp_counts(n, watch=True) for n in (N, 2 * N, 4 * N)]
     tcp_f = [tcp_counts(n, failing=True) for n in (N, 2 * N, 4 * N)]
+    for mode in ("close", "reset", "raise"):
+        tcc = [tcp_conn_counts(n, mode) for n in (N, 2 * N, 4 * N)]
+        ck.evaluations += 3
+        ck.coverage["tcp_connections_" + mode] = tcc
+        if not (tcc[2]["task_objects"] <= tcc[0]["task_objects"] + 4 and tcc[2]["live_tasks"] <= tcc[0]["live_tasks"] + 4):
+            ck.report(REASONS[154] + "-of-ended-connections",
+                      f"TcpIo after N, 2N, 4N connections that each ended ({mode}): {[t['task_objects'] for t in tcc]} Task objects alive, "
+                      f"{[t['live_tasks'] for t in tcc]} unfinished", dict(kind="tcp", counts=tcc, mode=mode))
     ck.count("tcp", True)
     ck.evaluations += 3 * len(cases) + 2
     ck.rule = (f"flat, nested and doubly nested configurations plus random ones, every device with a blocking adapter task and periodic "
